@@ -11,7 +11,9 @@
 (* and the observable event the real code must produce (t = "E"), and finally the result ("R").    *)
 (* A user function is a sequence of steps from {"reg", "fail"} followed by an ending:              *)
 (*   "ret" (returns), "failnow" (FailNow/Fatal/failed require), "panic" (any panic value).         *)
-(* Cleanup functions contain no "reg".                                                             *)
+(* Cleanup functions contain no "reg"; they may contain "regn": registering a further cleanup from  *)
+(* INSIDE a cleanup. Whether such a nested cleanup runs is not part of the statement (its event is   *)
+(* not in the log), but it must not disturb the cleanups that were registered by setup or a body.    *)
 EXTENDS Integers, Sequences, FiniteSets, TLC, Json
 
 CONSTANTS NComp, NIter, BodyProgs, SetupProgs, CleanupProgs
